@@ -44,6 +44,9 @@ def run(ctx, prop):
     if prop == "C08":   # its anchors include the loop of the encode command (spec/cli/CmdLoop.tla)
         from . import rloop
         rloop.run_cmd_part(ctx, vh, prove=True)
+    if prop == "C09":   # what an interrupted encode, or an encode over a cut input, leaves in its output file
+        from . import rloop
+        rloop.run_cmd_part(ctx, vh)
     if prop == "C07":
         ctx.coverage.update({"evaluations": summ["records"], "distinct_nontrivial": summ["records"],
                              "rule": "one evaluation = one random result (full integer ranges, ns timestamps 1970-2198, texts with quotes/commas/"
